@@ -70,7 +70,7 @@ def check(tier, replay):
     })
     rep.assumptions += ["a failing fclose/fflush discards the buffered bytes (as ENOSPC at close does); ftell is not faulted",
                         "'identical' = every file of the scratch directory byte-identical to the fault-free run AND every buffer returned by a read call identical",
-                        "quick tier: every k for six core workloads, every 5th k for the others; thorough: every k for all"]
+                        "quick tier: every k of every workload, single and sticky hard failures; short counts only for the seven core workloads; thorough: short counts for all"]
     return rep.finish()
 
 
